@@ -283,6 +283,135 @@ def waited_thread_program(rng, i):
 
 
 
+# ---------------------------------------------------------------- rejected pieces that concern names of EARLIER pieces
+
+HOST_OWNED = ["limit", "hostlist", "hostfn", "len", "print"]
+
+
+def owned_clash_history(rng, i):
+    """Earlier pieces OWN names - a function, a variable, a constant of their own, next to the host's globals - and a later
+    piece is rejected by the compiler because it declares or assigns one of those names again (function redefinition, `:=` /
+    `var` / `const` of an existing name, multi-assignment, assignment to a constant or a function, a duplicate parameter;
+    alone or next to fresh declarations, before or after them).  Everything the earlier pieces declared stays usable: the
+    pieces after the rejected one call, read, update and close over the owned names.
+    -> (pieces, reference pieces = the same history without the rejected piece, index of the rejected piece)"""
+    n = str(i)
+    fn, var, con = "of_" + n, "ov_" + n, "ok_" + n
+    owners = ["func %s(a) { return a + %d }" % (fn, 1 + rng.below(5)), "%s := %d" % (var, rng.below(9)), "const %s = %d" % (con, 2 + rng.below(7))]
+    if rng.chance(1, 2):
+        owners.append("func og_%s(a) { return %s(a) * 2 }" % (n, fn))
+    for a in range(len(owners) - 1, 0, -1):
+        b = rng.below(a + 1)
+        if not (owners[a].startswith("func og_") or owners[b].startswith("func og_")):
+            owners[a], owners[b] = owners[b], owners[a]
+    anyname = rng.choice([fn, fn, fn, var, var, con, con] + HOST_OWNED)
+    val = rng.choice(["%d" % rng.below(9), "\"s\"", "[1, 2]", "1 + 2", "limit", "%s(1)" % fn, "log.append(%d)" % (60 + rng.below(9))])
+    forms = [
+        "func NAME(a) { return 0 }", "func NAME() { log.append(55) }", "func NAME(a, b) { return a }\nfunc fresh_N() { return 1 }",
+        "func fresh_N() { return 1 }\nfunc NAME(a) { return 2 }", "fresh_N := 1\nfunc NAME(a) { return 2 }",
+        "func fresh_N() { return 1 }\nfunc fresh2_N() { return fresh_N() }\nfunc NAME() { }",
+        "NAME := VAL", "var NAME = VAL", "const NAME = VAL", "fresh_N, NAME := [1, 2]", "NAME, fresh_N := [1, 2]",
+        "FC = VAL", "FC += 1", "FC -= VAL", "func fresh_N(NAME, NAME) { return NAME }", "func fresh_N(a, a) { return NAME }",
+        "func fresh_N() { NAME := 1; NAME := 2 }", "func fresh_N() { FC = 1 }", "NAME := func() { return 1 }", "fresh_N := 1; NAME := fresh_N",
+    ]
+    clash = rng.choice(forms).replace("NAME", anyname).replace("FC", rng.choice([fn, con])).replace("VAL", val).replace("_N", "_" + n)
+    probes = ["FN(2)", "VAR", "CON", "VAR = VAR + 1", "VAR += FN(CON)", "func us_N_J() { return FN(VAR) + CON }\nus_N_J()", "print(FN(3))",
+              "print([VAR, CON])", "[1, 2].map(FN)", "func() { VAR = VAR * 2; return FN(VAR) }()", "limit = limit + CON", "hostlist.append(FN(1))",
+              "wq_N_J := FN(CON)", "func FN(a) { return 9 }", "VAR := 9", "const CON = 1", "FN = 1", "CON = 2", "hostfn(FN, VAR)", "len(hostlist)"]
+    base = gen.Gen(rng, budget=8).program_parts()
+    head, rest = base[:2], split_parts(rng, base[2:])
+    before = ["\n".join(head)] + split_parts(rng, owners)
+    k0 = rng.below(len(rest) + 1)
+    before += rest[:k0]
+    after = list(rest[k0:])
+    for j in range(3 + rng.below(5)):
+        pr = rng.choice(probes).replace("FN", fn).replace("VAR", var).replace("CON", con).replace("_N", "_" + n).replace("_J", "_%d" % j)
+        after.insert(rng.below(len(after) + 1), pr)
+    # the piece right after the rejected one often mentions the very name the rejection was about
+    if rng.chance(2, 3):
+        use = {fn: "%s(4)" % fn, var: var, con: con}.get(anyname, anyname if anyname in ("limit", "hostlist") else "%s(hostlist)" % anyname)
+        after.insert(0, use)
+    after.append("[%s(1), %s, %s, limit]" % (fn, var, con))
+    k = len(before)
+    return before + [clash] + after, before + after, k
+
+
+# ---------------------------------------------------------------- pieces rejected because a limit is exceeded
+
+def limit_reject_piece(rng, i, tier):
+    """a piece the compiler refuses because one of its limits is exceeded: parameters (255), arguments of a call / a pipe / a
+    partial (255), items of a list / map / set literal (65535), constants of one code object (65535: here of a NESTED function
+    - the table of the main code stays as it was -, filled by two or three literals that are each below the literal limit),
+    fragments of a template string"""
+    n = str(i)
+    c = rng.below(9 if tier == "quick" else 11)
+    if c == 0:
+        body = "func%s(%s) { return 1 }" % (rng.choice(["", " big_" + n]), ", ".join("p%d" % j for j in range(256 + rng.below(3))))
+        return body
+    if c == 1:
+        return "%s(%s)" % (rng.choice(["hostfn", "print", "t"]), ", ".join(str(j % 7) for j in range(256 + rng.below(20))))
+    if c == 2:
+        return "[%s]" % ", ".join("1" for _ in range(65536 + rng.below(50)))
+    if c == 3:
+        return "lq_%s := {%s}" % (n, ", ".join(str(j) for j in range(65536 + rng.below(9))))
+    if c in (4, 5, 6, 7):
+        # constants of a nested function: every literal below the literal limit, together above the table's limit
+        nl = 2 + rng.below(2)
+        per = 65536 // nl + 1 + rng.below(400)
+        lits = []
+        for a in range(nl):
+            lits.append("[%s]" % ", ".join(str(a * per + j) for j in range(per)))
+        stmts = "; ".join("v%d := %s" % (a, l) for a, l in enumerate(lits))
+        form = rng.choice(["func() { %s; return 1 }", "func() { %s; return 1 }", "hostfn(func(a) { %s; return a })", "func big_N() { %s; return 2 }",
+                           "bq_N := func() { %s }", "func() { return func() { %s; return 3 } }", "[1, func() { %s }]"])
+        return (form % stmts).replace("_N", "_" + n)
+    if c == 8:
+        return "hostlist | hostfn(%s)" % ", ".join("1" for _ in range(256 + rng.below(5)))
+    if c == 9:
+        return "{%s}" % ", ".join("\"k%d\": 1" % j for j in range(65536 + rng.below(9)))
+    return "func() { %s }" % "; ".join("w%d := 0" % j for j in range(65536 + rng.below(9)))
+
+
+def limit_reject_history(rng, i, tier):
+    """a program of the generator cut into pieces, with a limit-exceeding piece inserted at a random position
+    -> (pieces, reference pieces, index of the inserted piece)"""
+    parts = gen.Gen(rng, budget=10).program_parts()
+    n = str(i)
+    parts.insert(1 + rng.below(len(parts)), "lv_%s := %d" % (n, rng.below(5)))
+    at = max(j for j, ptxt in enumerate(parts) if ptxt.startswith("lv_")) + 1
+    parts.insert(at, "func lf_%s(a) { lv_%s = lv_%s + a; return lv_%s }" % (n, n, n, n))
+    for j in range(2 + rng.below(3)):
+        parts.insert(at + 1 + rng.below(len(parts) - at), rng.choice(["print(lf_N(%d))" % j, "lv_N = lv_N * 2", "limit += 1", "lc_N_%d := [lf_N(1), \"c%d\", %d]" % (j, j, 1000 + j),
+                                                                       "func lg_N_%d() { return lf_N(%d) + 1 }" % (j, 2000 + j)]).replace("_N", "_" + n))
+    parts.append("[lv_%s, limit, log]" % n)
+    pieces = split_parts(rng, parts)
+    k = rng.below(len(pieces) + 1)
+    return pieces[:k] + [limit_reject_piece(rng, i, tier)] + pieces[k:], pieces, k
+
+
+def reject_class(api_result, earlier=()):
+    """what the compiler kept of a rejected piece, as observed on the compiler (harness fields left / syms / codes / open / consts):
+    `inert` - no symbol declared, no code object created, nothing emitted but plain loads (the complement of the known finding
+    compile-rejected-piece-not-rolled-back): judged strictly;
+    `closed` - something was kept (the known finding), but nothing that can make the compiler REFUSE a later piece: every function
+    the piece opened in the main code was closed again (the compiler is not left inside a function body) and the constant table of
+    the main code is not full.  The names it declared are its own (the generator gives every inserted piece fresh names), so a
+    later piece that the same history without the insert accepts must still be accepted;
+    `open` - anything else"""
+    f = dict(x.split("=", 1) for x in api_result.split() if "=" in x)
+    if "left" not in f or "syms" not in f:
+        return "open"
+    if f.get("syms") == "0" and f.get("codes") == "0" and (f["left"] == "-" or all(o in INERT_OPS for o in f["left"].split(","))):
+        if not ("LOAD_GLOBAL" in api_result and any(r.startswith("ERR") for r in earlier)):
+            return "inert"
+    try:
+        if int(f.get("open", "1")) == 0 and int(f.get("consts", "65535")) < 65000:
+            return "closed"
+    except ValueError:
+        pass
+    return "open"
+
+
 THREAD_KNOWN = {
     "threads-nested": ("thread-code-loaded-in-clone-keeps-stale-globals",
                        "a thread whose function literal is nested in another function (its code is first loaded inside the thread's VM "
@@ -388,7 +517,12 @@ def _gl_differ(a, b):
     return False
 
 
-def _judge(res, route, cases, outs, oracle, hist, checked, distinct, inert=None):
+def _norm(results):
+    """piece results without the harness's notes on what a rejected piece left in the compiler"""
+    return ["REJECT compile" if r.startswith("REJECT compile") else r for r in results]
+
+
+def _judge(res, route, cases, outs, oracle, hist, checked, distinct, inert=None, rclass=None):
     pos = 0
     for ci, (kind, pieces, ref, k) in enumerate(cases):
         o = outs[pos]
@@ -435,7 +569,8 @@ def _judge(res, route, cases, outs, oracle, hist, checked, distinct, inert=None)
                 if not inserted.startswith("ERR"):
                     why = None
                 else:
-                    ref_others = rres[:k] + rres[k + 1:]
+                    ref_others = _norm(rres[:k] + rres[k + 1:])
+                    others = _norm(others)
                     if others == ref_others and tr == rtr and _only_unassigned_names(gl, rgl):
                         res.known_finding("names declared by a piece that fails at run time before assigning them stay declared, without a "
                                           "value, for the pieces that follow (e.g. pieces `b := [1][5]`, `b`: the second is an eval error "
@@ -448,10 +583,34 @@ def _judge(res, route, cases, outs, oracle, hist, checked, distinct, inert=None)
                                 others[dk[0]], ref_others[dk[0]]) if dk else "")
                     checked[kind] = checked.get(kind, 0) + 1
             else:
-                if others != rres or _gl_differ(gl, rgl) or tr != rtr:
+                if _norm(others) != _norm(rres) or _gl_differ(gl, rgl) or tr != rtr:
+                    dk = [j for j in range(min(len(others), len(rres))) if _norm(others[j:j + 1]) != _norm(rres[j:j + 1])]
                     why = "a rejected piece had an effect on the pieces that follow (results %s vs %s; globals %s vs %s)" % (
-                        others[-3:], rres[-3:], gl[-80:], rgl[-80:])
+                        _norm(others[-3:]), _norm(rres[-3:]), gl[-80:], rgl[-80:])
+                    if dk:
+                        j = dk[0] + (1 if dk[0] >= k else 0)
+                        why = "a rejected piece (`%s`) had an effect on the pieces that follow: piece %d (`%s`) gives %s, in the same history without the rejected piece %s" % (
+                            pieces[k].replace("\n", "; ")[:100], j, pieces[j].replace("\n", "; ")[:100], _norm(others[dk[0]:dk[0] + 1])[0][:80], _norm(rres[dk[0]:dk[0] + 1])[0][:80])
                 checked[kind] = checked.get(kind, 0) + 1
+        if kind in ("compile-reject-owned", "compile-reject-limit") and ref is not None and k < len(results) and results[k].startswith("REJECT compile"):
+            cls = (rclass or {}).get(ci, "open")
+            checked[kind + ":" + cls] = checked.get(kind + ":" + cls, 0) + 1
+            if why and cls == "closed":
+                # the compiler kept something of the piece (the recorded finding), but nothing that lets it refuse later input:
+                # a later piece that the history without the insert accepts and this one refuses is outside that finding
+                rr = _norm(parse_out(oref)[0])
+                oo = _norm(others)
+                lost = [j for j in range(k, min(len(oo), len(rr))) if oo[j] == "REJECT compile" and rr[j] != "REJECT compile"]
+                if lost:
+                    j = lost[0] + 1
+                    why = ("after a rejected piece (`%s`; every function it opened was closed, the main code's tables are not full) the compiler refuses a later "
+                           "piece that it accepts in the same history without the rejected piece: piece %d (`%s`)" % (
+                               pieces[k].replace("\n", "; ")[:100], j, pieces[j].replace("\n", "; ")[:100]))
+                    cls = "inert"
+            if why and cls != "inert":
+                res.known_finding("a piece rejected by the compiler after it has emitted code, declared symbols or entered a function "
+                                  "body is not rolled back (e.g. pieces `x := 1`, `x = 2; undefined_name`, `x` give 2)")
+                continue
         if kind == "compile-reject-expr" and ref is not None and k < len(results) and results[k].startswith("REJECT compile"):
             cls = "inert" if (inert or {}).get(ci) else "leaves-code-behind"
             checked[kind + ":" + cls] = checked.get(kind + ":" + cls, 0) + 1
@@ -580,6 +739,14 @@ def run(res):
         parts = waited_thread_program(rng, i)
         cases.append(("threads-waited", split_parts(rng, parts), None, None))
         cases.append(("threads-waited", list(parts), None, None))
+    # rejected pieces whose rejection is about a name that earlier pieces own; everything those pieces declared stays usable
+    for i in range(600 if tier == "quick" else 12000):
+        pieces, ref, k = owned_clash_history(rng, i)
+        cases.append(("compile-reject-owned", pieces, ref, k))
+    # pieces rejected because a limit of the compiler is exceeded, at every position
+    for i in range(48 if tier == "quick" else 320):
+        pieces, ref, k = limit_reject_history(rng, i, tier)
+        cases.append(("compile-reject-limit", pieces, ref, k))
     # corpus: the design witnesses and the witnesses of repaired defects
     cases.append(("split", ["x := 1; func g() { return x + 1 }", "g()", "x = 10", "g()"], None, None))
     cases.append(("split", ["x := 1", "func g() { x = x + 1; return x }", "g()", "y := 5", "x = 10", "g()", "[x, y]"], None, None))
@@ -634,6 +801,7 @@ def run(res):
     _SEEN.clear()
     # class of every inserted expression reject, decided on what the API route saw the compiler keep of it
     inert = {}
+    rclass = {}
     pos = 0
     for ci, (kind, pieces, ref, k) in enumerate(cases):
         o = routes["api"][pos]
@@ -642,8 +810,12 @@ def run(res):
             results = parse_out(o)[0]
             if k < len(results) and results[k].startswith("REJECT compile"):
                 inert[ci] = inert_reject(pieces[k], results[k], results[:k])
+        if kind in ("compile-reject-owned", "compile-reject-limit") and o is not None and o.startswith("INC "):
+            results = parse_out(o)[0]
+            if k < len(results) and results[k].startswith("REJECT compile"):
+                rclass[ci] = reject_class(results[k], results[:k])
     for route, outs in routes.items():
-        _judge(res, route, cases, outs, oracle, hist, checked, distinct, inert)
+        _judge(res, route, cases, outs, oracle, hist, checked, distinct, inert, rclass)
     outs = routes["repl"]
     cov["evaluations"] = 2 * len(lines)
     cov["distinct_nontrivial"] = len(distinct)
@@ -659,7 +831,15 @@ def run(res):
                    "thread being waited for, a deep chain of frames, a loop / switch / literal with pending operands - followed by pieces that use the very "
                    "same modules, functions, callbacks and threads again with the fuse off, compared with the history that has the piece without its "
                    "failing statement; threads (spawn / f.spawn, threads of threads) that are in the middle of a long loop - or blocked, then released and running - "
-                   "when their piece ends and are waited for by a later piece, under a context with a Done channel that is never cancelled during the case; plus 1100 one-expression pieces (stack growth). "
+                   "when their piece ends and are waited for by a later piece, under a context with a Done channel that is never cancelled during the case; "
+                   "rejected pieces whose rejection concerns a name that EARLIER pieces own (a function, a variable, a constant of the program, the host's globals): "
+                   "function redefinition, := / var / const of an existing name, multi-assignment, assignment to a constant or a function, duplicate parameters - alone, "
+                   "before and after fresh declarations - followed by pieces that call, read, update, close over and try to redeclare the owned names; pieces rejected "
+                   "because a LIMIT is exceeded (parameters, arguments of calls / pipes, items of list / set / map literals, constants of a nested function filled by "
+                   "literals that are each below the literal limit; thorough: locals) at every position.  For these two families the harness reports what the compiler kept "
+                   "of the piece (instructions, symbols, code objects, functions opened in the main code and not closed, size of the main constant table): pieces that "
+                   "kept nothing but plain loads are judged strictly, pieces that kept something but nothing that can make the compiler refuse later input must not "
+                   "make it refuse a later piece that the history without them accepts; plus 1100 one-expression pieces (stack growth). "
                    "Non-trivial = distinct histories.")
     cov["samples"] = [{"kind": cases[1][0], "pieces": cases[1][1]}, {"impl": outs[0][:300]}]
     cov["input_distribution"] = hist
